@@ -169,6 +169,13 @@ impl Run {
             all_exhaustive: AtomicBool::new(true),
         }
     }
+    /// where evidence/ and replays/ are written (DLTVERIF_OUT for scratch runs, else the root)
+    pub fn out_dir(&self) -> PathBuf {
+        match std::env::var("DLTVERIF_OUT") {
+            Ok(d) if !d.is_empty() => PathBuf::from(d),
+            _ => self.root.clone(),
+        }
+    }
     pub fn rule(&self, r: &str) {
         *self.rule.lock().unwrap() = r.to_string();
     }
@@ -206,7 +213,7 @@ impl Run {
 
     /// Write a replay file for a failing case and record the violation.
     pub fn report_violation(&self, section: &str, case: Value, v: &Violation) -> String {
-        let dir = self.root.join("replays");
+        let dir = self.out_dir().join("replays");
         let _ = std::fs::create_dir_all(&dir);
         let body = json!({
             "property": self.prop, "section": section, "signature": v.sig,
@@ -493,7 +500,7 @@ impl Run {
             "wall_s": (wall * 1000.0).round() / 1000.0,
             "violations": violations.len(),
         });
-        let dir = self.root.join("evidence");
+        let dir = self.out_dir().join("evidence");
         let _ = std::fs::create_dir_all(&dir);
         let path = dir.join(format!("{}.json", self.prop));
         if let Err(e) = std::fs::write(&path, serde_json::to_string_pretty(&ev).unwrap()) {
